@@ -30,24 +30,28 @@ type VerifC08 struct {
 
 // VerifC08New: one agent with one shard whose clocks start at nowUnix (CurrentTime=nowUnix, SendTime=nowUnix-2 as MakeAgent does).
 func VerifC08New(nowUnix uint32, hwRes, hwSlowRes int) *VerifC08 {
-	config := Config{}
+	config := DefaultConfig() // a config that passes ValidateConfigSource, so that updateRemoteConfig can be applied on top of it
+	config.HardwareMetricResolution = hwRes
+	config.HardwareSlowMetricResolution = hwSlowRes
 	a := &Agent{
 		config:                            config,
 		logF:                              func(f string, a ...any) {},
 		mappingsCache:                     pcache.NewMappingsCache(verifC08Storage, 1024*1024, 86400),
 		shardByMetricCount:                1,
+		componentTag:                      format.TagValueIDComponentAgent,
 		builtinMetricMetaUsageCPU:         *format.BuiltinMetricMetaUsageCPU,
 		builtinMetricMetaUsageMemory:      *format.BuiltinMetricMetaUsageMemory,
 		builtinMetricMetaHeartbeatVersion: *format.BuiltinMetricMetaHeartbeatVersion,
 	}
 	s := &Shard{
-		config:              config,
-		agent:               a,
-		ShardNum:            0,
-		ShardKey:            1,
-		CurrentTime:         nowUnix,
-		SendTime:            nowUnix - 2,
-		BucketsToPreprocess: make(chan *data_model.MetricsBucket, 1), // same capacity as MakeAgent
+		config:               config,
+		agent:                a,
+		ShardNum:             0,
+		ShardKey:             1,
+		CurrentTime:          nowUnix,
+		SendTime:             nowUnix - 2,
+		BucketsToPreprocess:  make(chan *data_model.MetricsBucket, 1), // same capacity as MakeAgent
+		metricBudgetsFromAgg: data_model.NewExpDecay(config.BudgetDecayHalfLife),
 	}
 	s.hardwareMetricResolutionResolved.Store(int32(hwRes))
 	s.hardwareSlowMetricResolutionResolved.Store(int32(hwSlowRes))
@@ -99,6 +103,28 @@ func (v *VerifC08) AddMappings(nowUnix uint32, pairs []pcache.MappingPair) {
 // MapAllTags forwards to the real unexported mapAllTags.
 func (v *VerifC08) MapAllTags(h *data_model.MappedMetricHeader, args data_model.HandlerArgs) {
 	v.A.Map(args, h, nil)
+}
+
+// verifC08Meta is a meta storage that knows only the agent remote config metric (what the agent reads in updateRemoteConfig).
+type verifC08Meta struct{ remoteConfig *format.MetricMetaValue }
+
+func (m *verifC08Meta) GetMetaMetric(metricID int32) *format.MetricMetaValue { return nil }
+func (m *verifC08Meta) GetMetaMetricByName(metricName string) *format.MetricMetaValue {
+	if metricName == format.StatshouseAgentRemoteConfigMetric {
+		return m.remoteConfig
+	}
+	return nil
+}
+func (m *verifC08Meta) GetGroup(id int32) *format.MetricsGroup               { return nil }
+func (m *verifC08Meta) GetNamespace(id int32) *format.NamespaceMeta          { return nil }
+func (m *verifC08Meta) GetNamespaceByName(name string) *format.NamespaceMeta { return nil }
+func (m *verifC08Meta) GetGroupByName(name string) *format.MetricsGroup      { return nil }
+
+// ApplyRemoteConfig delivers `description` as the description of the statshouse_agent_remote_config metric and calls the real
+// updateRemoteConfig (what goFlusher does after every flush iteration).
+func (v *VerifC08) ApplyRemoteConfig(description string) {
+	v.A.metricStorage = &verifC08Meta{remoteConfig: &format.MetricMetaValue{Name: format.StatshouseAgentRemoteConfigMetric, Description: description}}
+	v.A.updateRemoteConfig()
 }
 
 func VerifC08Recover(f func()) (msg string) {
